@@ -421,3 +421,349 @@ Proof.
       destruct tidx; [congruence | discriminate].
     + apply (c_wf st C).
 Qed.
+
+(* ---------- voxel writes: POST raw?mutate=true, POST blocks / raw ---------- *)
+Lemma aget_put_blocks blocks : forall vx b,
+  NoDup (map fst blocks) ->
+  aget N.eqb b (put_blocks vx blocks) = match aget N.eqb b blocks with Some a => Some a | None => aget N.eqb b vx end.
+Proof.
+  unfold put_blocks. induction blocks as [|[b0 a0] r IH]; intros vx b ND; simpl; [reflexivity|].
+  inversion ND as [|? ? Hn ND']; subst. rewrite (IH _ b ND'), aget_aset_N.
+  destruct (b =? b0) eqn:E; [|reflexivity]. apply N.eqb_eq in E; subst b0.
+  now rewrite (proj2 (aget_None_notin N.eqb N.eqb_eq b r) Hn).
+Qed.
+
+Lemma aget_block_changes st mutate blocks b :
+  aget N.eqb b (block_changes st mutate blocks) =
+  match aget N.eqb b blocks with
+  | Some a => Some (calc_num_labels a (if mutate then aget N.eqb b (f_vox st) else None))
+  | None => None
+  end.
+Proof.
+  unfold block_changes. induction blocks as [|[b0 a0] r IH]; simpl; [reflexivity|].
+  destruct (b =? b0) eqn:E; [apply N.eqb_eq in E; now subst | exact IH].
+Qed.
+
+Lemma keys_block_changes st mutate blocks : map fst (block_changes st mutate blocks) = map fst blocks.
+Proof. unfold block_changes. rewrite map_map. reflexivity. Qed.
+
+(* the labels aggregateBlockChanges visits, with the supervoxels it resolved to each *)
+Definition lstep (mapf : N -> N) (ls : list (N * list N)) (sb : N * list (N * Z)) : list (N * list N) :=
+  let l := mapf (fst sb) in
+  let old := match aget N.eqb l ls with Some m => m | None => [] end in
+  aset N.eqb l (if l =? 0 then old else old ++ [fst sb]) ls.
+
+Definition linv (mapf : N -> N) (ls : list (N * list N)) (P : list N) : Prop :=
+  NoDup (map fst ls) /\
+  (forall l, ahas N.eqb l ls = existsb (fun s => mapf s =? l) P) /\
+  (forall l m s, aget N.eqb l ls = Some m -> l <> 0 -> (In s m <-> In s P /\ mapf s = l)).
+
+Lemma linv_step mapf ls P sb : linv mapf ls P -> linv mapf (lstep mapf ls sb) (P ++ [fst sb]).
+Proof.
+  intros (ND & Hk & Hm). unfold lstep. set (l0 := mapf (fst sb)). split; [|split].
+  - now apply (nodup_aset N.eqb N.eqb_eq).
+  - intro l. rewrite ahas_aset, Hk, existsb_app. simpl. rewrite orb_false_r. fold l0.
+    now rewrite (N.eqb_sym l0 l).
+  - intros l m s. rewrite aget_aset_N. destruct (l =? l0) eqn:E.
+    + apply N.eqb_eq in E; subst l. intros H Hl0. inversion H; subst m. clear H.
+      rewrite (N_eqb_neq _ _ Hl0). rewrite !in_app_iff. simpl.
+      destruct (aget N.eqb l0 ls) as [m0|] eqn:A.
+      * rewrite (Hm l0 m0 s A Hl0). split.
+        -- intros [[H1 H2]|[H|[]]]; [auto | subst; auto].
+        -- intros [[H1|[H1|[]]] H2]; [auto | subst; auto].
+      * split.
+        -- intros [[]|[H|[]]]. subst; auto.
+        -- intros [[H1|[H1|[]]] H2]; [|subst; auto].
+           exfalso. specialize (Hk l0). unfold ahas in Hk. rewrite A in Hk.
+           symmetry in Hk. assert (existsb (fun s0 => mapf s0 =? l0) P = true) as C; [|congruence].
+           apply existsb_exists. exists s. split; [exact H1 | now apply N.eqb_eq].
+    + intros H Hl. rewrite (Hm l m s H Hl). rewrite in_app_iff. simpl. split; [tauto|].
+      intros [[H1|[H1|[]]] H2]; [auto|]. exfalso. subst s. unfold l0 in E. rewrite H2, N.eqb_refl in E. discriminate.
+Qed.
+
+Lemma agg_labels_spec mapf svc : linv mapf (agg_labels mapf svc) (map fst svc).
+Proof.
+  unfold agg_labels.
+  assert (forall svc ls P, linv mapf ls P -> linv mapf (fold_left (lstep mapf) svc ls) (P ++ map fst svc)) as G.
+  { clear svc. induction svc as [|sb r IH]; intros ls P H; simpl.
+    - now rewrite app_nil_r.
+    - change (P ++ fst sb :: map fst r) with (P ++ [fst sb] ++ map fst r). rewrite app_assoc.
+      apply IH. now apply linv_step. }
+  apply (G svc [] []). split; [constructor | split; [reflexivity | intros l m s H; discriminate]].
+Qed.
+
+Lemma aget_put_idx ix l oi l' : aget N.eqb l' (put_idx ix l oi) = if l' =? l then oi else aget N.eqb l' ix.
+Proof. unfold put_idx. destruct oi; [apply aget_aset_N | apply aget_adel_N]. Qed.
+
+(* the index a label ends up with after ChangeLabelIndex (an error leaves it as it was) *)
+Definition lab_result (mo : bool) (ix : list (N * index)) (svc : changes) (l : N) (m : list N) : option index :=
+  match change_label_index l (aget N.eqb l ix) svc (if mo && negb (l =? 0) then Some m else None) with
+  | Ok oi => oi
+  | _ => aget N.eqb l ix
+  end.
+
+Lemma apply_labels_get mo svc ls : forall ix l,
+  NoDup (map fst ls) ->
+  aget N.eqb l (fold_left (fun ix lm =>
+                   match change_label_index (fst lm) (aget N.eqb (fst lm) ix) svc
+                                            (if mo && negb (fst lm =? 0) then Some (snd lm) else None) with
+                   | Ok oi => put_idx ix (fst lm) oi
+                   | _ => ix
+                   end) ls ix)
+  = match aget N.eqb l ls with Some m => lab_result mo ix svc l m | None => aget N.eqb l ix end.
+Proof.
+  induction ls as [|[l0 m0] r IH]; intros ix l ND; simpl; [reflexivity|].
+  inversion ND as [|? ? Hn ND']; subst. rewrite (IH _ l ND').
+  destruct (l =? l0) eqn:E.
+  - apply N.eqb_eq in E; subst l0. rewrite (proj2 (aget_None_notin N.eqb N.eqb_eq l r) Hn).
+    unfold lab_result.
+    destruct (change_label_index l (aget N.eqb l ix) svc _) as [oi| |]; [|reflexivity|reflexivity].
+    now rewrite aget_put_idx, N.eqb_refl.
+  - assert (aget N.eqb l (match change_label_index l0 (aget N.eqb l0 ix) svc
+                                  (if mo && negb (l0 =? 0) then Some m0 else None) with
+                          | Ok oi => put_idx ix l0 oi | _ => ix end) = aget N.eqb l ix) as Same.
+    { destruct (change_label_index l0 _ svc _); [|reflexivity|reflexivity]. now rewrite aget_put_idx, E. }
+    destruct (aget N.eqb l r) as [m|]; [|exact Same].
+    unfold lab_result. now rewrite Same.
+Qed.
+
+Section Write.
+  Variable fx : fixes.
+  Variable st : fstate.
+  Variable mutate : bool.
+  Variable blocks : list (N * list N).
+  Hypothesis C : Consistent st.
+  Hypothesis Hfx : fx_members fx = true.
+  Hypothesis NDb : NoDup (map fst blocks).
+  Hypothesis Hfresh : mutate = false -> forall b a, In (b, a) blocks -> aget N.eqb b (f_vox st) = None.
+  Hypothesis Hlen : forall b a, In (b, a) blocks -> N.of_nat (length a) < 2 ^ 31.
+  Hypothesis Hlen0 : forall b a, aget N.eqb b (f_vox st) = Some a -> N.of_nat (length a) < 2 ^ 31.
+  Hypothesis Hlive : forall b a s, In (b, a) blocks -> 0 < occ a s -> s <> 0 -> mapped (f_map st) s <> 0.
+
+  Let mp := mapped (f_map st).
+  Let prev (b : N) := if mutate then aget N.eqb b (f_vox st) else None.
+  Let chs := block_changes st mutate blocks.
+  Let svc := agg_changes chs.
+  Let ls := agg_labels mp svc.
+  Let st' := f_write fx mp st mutate blocks.
+
+  Lemma w_in_blocks b a : aget N.eqb b blocks = Some a <-> In (b, a) blocks.
+  Proof.
+    split; [apply (aget_Some_in N.eqb N.eqb_eq) | apply (in_aget_nodup N.eqb N.eqb_eq); exact NDb].
+  Qed.
+
+  Lemma w_prev b a s : In (b, a) blocks -> occo (prev b) s = vcount st b s.
+  Proof.
+    intro Hin. unfold prev, vcount. destruct mutate eqn:M.
+    - destruct (aget N.eqb b (f_vox st)); reflexivity.
+    - rewrite (Hfresh eq_refl b a Hin). reflexivity.
+  Qed.
+
+  Lemma w_vcount_bound b s : vcount st b s < 2 ^ 31.
+  Proof.
+    unfold vcount. destruct (aget N.eqb b (f_vox st)) as [a|] eqn:A; [|reflexivity].
+    pose proof (Hlen0 b a A). pose proof (occ_le_length a s). change (countN a s) with (occ a s). lia.
+  Qed.
+
+  Lemma w_cwf : CWf svc.
+  Proof. unfold svc. rewrite agg_changes_fold. apply cwf_fold_blocks, cwf_nil. Qed.
+
+  Lemma w_chs_in b ds : In (b, ds) chs -> exists a, In (b, a) blocks /\ ds = calc_num_labels a (prev b).
+  Proof.
+    unfold chs, block_changes. intro H. apply in_map_iff in H as [[b' a] [E Hin]]. simpl in E.
+    inversion E; subst. exists a. split; [exact Hin | reflexivity].
+  Qed.
+
+  Lemma w_dl s b : dl svc s b = delta_at chs s b.
+  Proof.
+    unfold svc. rewrite agg_changes_fold, dl_fold_blocks.
+    - unfold dl at 1; simpl. unfold zget; simpl. lia.
+    - unfold chs. rewrite keys_block_changes. exact NDb.
+    - intros b' ds Hin. destruct (w_chs_in b' ds Hin) as [a [_ ->]]. apply calc_num_labels_nodup.
+  Qed.
+
+  Lemma w_delta s b : s <> 0 ->
+    delta_at chs s b = match aget N.eqb b blocks with
+                       | Some a => (Z.of_N (occ a s) - Z.of_N (vcount st b s))%Z
+                       | None => 0%Z
+                       end.
+  Proof.
+    intro Hs. unfold delta_at, chs. rewrite aget_block_changes.
+    destruct (aget N.eqb b blocks) as [a|] eqn:A; [|reflexivity].
+    rewrite calc_num_labels_spec, (N_eqb_neq s 0 Hs). fold (prev b).
+    now rewrite (w_prev b a s (proj1 (w_in_blocks b a) A)).
+  Qed.
+
+  Lemma w_vcount' b s :
+    vcount st' b s = match aget N.eqb b blocks with Some a => occ a s | None => vcount st b s end.
+  Proof.
+    unfold vcount, st', f_write; simpl. rewrite (aget_put_blocks blocks _ b NDb).
+    now destruct (aget N.eqb b blocks).
+  Qed.
+
+  Lemma w_vcount_delta b s : s <> 0 -> Z.of_N (vcount st' b s) = (Z.of_N (vcount st b s) + dl svc s b)%Z.
+  Proof.
+    intro Hs. rewrite w_vcount', w_dl, (w_delta s b Hs). destruct (aget N.eqb b blocks); lia.
+  Qed.
+
+  Lemma w_has s : ahas N.eqb s svc = true ->
+    s <> 0 /\ mp s <> 0 /\ exists b a, In (b, a) blocks /\ (0 < occ a s \/ 0 < vcount st b s).
+  Proof.
+    unfold svc. rewrite agg_changes_fold, has_fold_blocks. unfold ahas at 1; simpl.
+    intro H. apply existsb_exists in H as [[b ds] [Hin Hh]]. simpl in Hh.
+    destruct (w_chs_in b ds Hin) as [a [Hb ->]]. rewrite calc_num_labels_has in Hh.
+    apply andb_true_iff in Hh as [H0 Hp]. apply negb_true_iff in H0. apply N.eqb_neq in H0.
+    rewrite (w_prev b a s Hb) in Hp.
+    assert (0 < occ a s \/ 0 < vcount st b s) as Hp'.
+    { apply orb_true_iff in Hp as [Hp|Hp]; apply N.ltb_lt in Hp; auto. }
+    split; [exact H0|]. split; [|now exists b, a].
+    destruct Hp' as [Hp'|Hp']; [now apply (Hlive b a s Hb)|].
+    intro Hm. pose proof (consistent_no_idx st 0 b s C (c_zero st C) H0 Hm). lia.
+  Qed.
+
+  Lemma w_nohas s b : ahas N.eqb s svc = false -> dl svc s b = 0%Z.
+  Proof. unfold ahas, dl. now destruct (aget N.eqb s svc). Qed.
+
+  Lemma w_linv : linv mp ls (map fst svc).
+  Proof. apply agg_labels_spec. Qed.
+
+  Lemma w_in_keys s : In s (map fst svc) <-> ahas N.eqb s svc = true.
+  Proof.
+    unfold ahas. destruct (aget N.eqb s svc) eqn:A.
+    - split; [reflexivity|]. intros _. apply (aget_Some_in N.eqb N.eqb_eq) in A. apply in_map_iff. now exists (s, l).
+    - split; [|discriminate]. intro H. apply (aget_None_notin N.eqb N.eqb_eq) in A. contradiction.
+  Qed.
+
+  Lemma w_label_has l : ahas N.eqb l ls = true -> l <> 0 /\ exists s, ahas N.eqb s svc = true /\ mp s = l.
+  Proof.
+    destruct w_linv as (_ & Hk & _). rewrite Hk. intro H. apply existsb_exists in H as [s [Hin E]].
+    apply N.eqb_eq in E. apply w_in_keys in Hin. destruct (w_has s Hin) as (_ & Hm & _).
+    split; [congruence | now exists s].
+  Qed.
+
+  Lemma w_label_nohas l s : ahas N.eqb l ls = false -> mp s = l -> ahas N.eqb s svc = false.
+  Proof.
+    destruct w_linv as (_ & Hk & _). rewrite Hk. intros H Hm.
+    destruct (ahas N.eqb s svc) eqn:A; [|reflexivity]. apply w_in_keys in A.
+    assert (existsb (fun s0 => mp s0 =? l) (map fst svc) = true) as X; [|congruence].
+    apply existsb_exists. exists s. split; [exact A | now apply N.eqb_eq].
+  Qed.
+
+  Let idx0 (l : N) : index := match get_idx st l with Some i => i | None => [] end.
+
+  Lemma w_idx0_wf l : Wf (idx0 l).
+  Proof. unfold idx0. destruct (get_idx st l) eqn:G; [apply (c_wf st C l i G) | apply Wf_nil]. Qed.
+
+  Lemma w_idx0_cnt l b s :
+    cnt (idx0 l) b s = if negb (s =? 0) && (mp s =? l) then vcount st b s else 0.
+  Proof.
+    pose proof (c_cnt st C l b s) as E. unfold icnt in E. unfold idx0.
+    destruct (get_idx st l); [exact E|]. unfold cnt; simpl. exact E.
+  Qed.
+
+  Lemma w_idx0_sv l s : sv_in (idx0 l) s = true -> s <> 0 /\ mp s = l.
+  Proof.
+    unfold idx0. destruct (get_idx st l) eqn:G; [apply (consistent_sv_in st l i s C G) | discriminate].
+  Qed.
+
+  Lemma w_label l m : aget N.eqb l ls = Some m ->
+    l <> 0 /\
+    exists idx', modify_blocks l (idx0 l) svc (Some m) = Ok idx' /\ Wf idx' /\
+      forall b s, cnt idx' b s = if negb (s =? 0) && (mp s =? l) then vcount st' b s else 0.
+  Proof.
+    intro A.
+    assert (ahas N.eqb l ls = true) as Hl by (unfold ahas; now rewrite A).
+    destruct (w_label_has l Hl) as [Hl0 _]. split; [exact Hl0|].
+    destruct w_linv as (_ & _ & Hm). specialize (Hm l m).
+    set (acc := accepts l (idx0 l) (Some m)).
+    assert (forall s, acc s = true -> s <> 0 /\ mp s = l) as B1.
+    { intros s Ha. unfold acc, accepts in Ha. apply orb_true_iff in Ha as [Ha|Ha].
+      - rewrite sv_in_supervoxels in Ha. now apply w_idx0_sv.
+      - apply memN_In in Ha. apply (Hm s A Hl0) in Ha as [Hk Hs]. split; [|exact Hs].
+        apply w_in_keys in Hk. now destruct (w_has s Hk). }
+    assert (forall s, ahas N.eqb s svc = true -> mp s = l -> acc s = true) as B2.
+    { intros s Hk Hs. unfold acc, accepts. apply orb_true_iff. right. apply memN_In.
+      apply (Hm s A Hl0). split; [now apply w_in_keys | exact Hs]. }
+    assert (forall s b d, In (s, b, d) (flat_changes acc svc) ->
+              (- 2 ^ 31 <= d < 2 ^ 31)%Z /\ (0 <= Z.of_N (cnt (idx0 l) b s) + d < 2 ^ 32)%Z /\
+              ((0 < Z.of_N (cnt (idx0 l) b s) + d)%Z \/ 0 < cnt (idx0 l) b s)) as Pre.
+    { intros s b d Hin.
+      destruct (in_flat_changes acc svc s b d Hin) as [Ha Hk].
+      destruct (B1 s Ha) as [Hs0 Hsl].
+      pose proof (in_flat_changes_dl acc svc s b d w_cwf Hin) as Hd.
+      pose proof (in_flat_changes_bkeys acc svc s b d Hin (proj1 w_cwf)) as Hb.
+      unfold svc in Hb. rewrite agg_changes_fold in Hb. apply bkeys_fold_blocks in Hb as [[]|[ds [Hc Hh]]].
+      destruct (w_chs_in b ds Hc) as [a [Hba ->]]. rewrite calc_num_labels_has in Hh.
+      apply andb_true_iff in Hh as [_ Hp]. rewrite (w_prev b a s Hba) in Hp.
+      rewrite w_dl, (w_delta s b Hs0), (proj2 (w_in_blocks b a) Hba) in Hd.
+      rewrite w_idx0_cnt, Hsl, N.eqb_refl, (N_eqb_neq s 0 Hs0). cbn [negb andb].
+      pose proof (Hlen b a Hba). pose proof (occ_le_length a s). pose proof (w_vcount_bound b s).
+      assert (0 < occ a s \/ 0 < vcount st b s) as Hp'.
+      { apply orb_true_iff in Hp as [Hp|Hp]; apply N.ltb_lt in Hp; auto. }
+      rewrite two31, two32. change (2 ^ 31) with 2147483648 in *. subst d. lia. }
+    assert (NoDup (map fst (flat_changes acc svc))) as NDf by (apply nodup_flat, w_cwf).
+    destruct (modify_blocks_spec l (idx0 l) svc (Some m) NDf) as [idx' [E Hc]].
+    { intros s b d Hin. destruct (Pre s b d Hin) as (P1 & P2 & _). auto. }
+    exists idx'. split; [exact E|]. split.
+    - rewrite modify_blocks_flat in E. apply (apply_flat_wf _ (idx0 l) idx' (w_idx0_wf l) NDf Pre E).
+    - intros b s. specialize (Hc b s). fold acc in Hc. rewrite (dsum_flat acc svc s b w_cwf) in Hc.
+      rewrite w_idx0_cnt in Hc.
+      destruct (negb (s =? 0) && (mp s =? l)) eqn:Cond.
+      + apply andb_true_iff in Cond as [Hs0 Hsl]. apply negb_true_iff in Hs0.
+        apply N.eqb_neq in Hs0. apply N.eqb_eq in Hsl.
+        pose proof (w_vcount_delta b s Hs0) as Hv.
+        destruct (ahas N.eqb s svc) eqn:Hk.
+        * rewrite (B2 s Hk Hsl) in Hc. lia.
+        * rewrite (w_nohas s b Hk) in *. destruct (acc s); lia.
+      + destruct (acc s) eqn:Ha; [|lia].
+        destruct (B1 s Ha) as [Hs0 Hsl]. rewrite Hsl, N.eqb_refl, (N_eqb_neq s 0 Hs0) in Cond. discriminate.
+  Qed.
+
+  Lemma w_get_idx l :
+    get_idx st' l = match aget N.eqb l ls with
+                    | Some m => lab_result true (f_idx st) svc l m
+                    | None => get_idx st l
+                    end.
+  Proof.
+    unfold get_idx, st', f_write, apply_label_changes; simpl. rewrite Hfx.
+    apply (apply_labels_get true svc ls (f_idx st) l). apply w_linv.
+  Qed.
+
+  Lemma w_lab_result l m idx' :
+    l <> 0 -> modify_blocks l (idx0 l) svc (Some m) = Ok idx' ->
+    lab_result true (f_idx st) svc l m = match idx' with [] => None | _ => Some idx' end.
+  Proof.
+    intros Hl E. unfold lab_result, change_label_index. rewrite (N_eqb_neq l 0 Hl). cbn [negb andb].
+    fold (get_idx st l). fold (idx0 l). now rewrite E.
+  Qed.
+
+  Theorem consistent_write : Consistent st'.
+  Proof.
+    split.
+    - intros l b s. unfold icnt. rewrite w_get_idx.
+      change (mapped (f_map st') s) with (mp s).
+      destruct (aget N.eqb l ls) as [m|] eqn:A.
+      + destruct (w_label l m A) as (Hl0 & idx' & E & _ & Hc).
+        rewrite (w_lab_result l m idx' Hl0 E). rewrite <- Hc. now destruct idx'.
+      + pose proof (c_cnt st C l b s) as E. unfold icnt in E. fold mp in E. rewrite E.
+        destruct (negb (s =? 0) && (mp s =? l)) eqn:Cond; [|reflexivity].
+        apply andb_true_iff in Cond as [Hs0 Hsl]. apply negb_true_iff in Hs0.
+        apply N.eqb_neq in Hs0. apply N.eqb_eq in Hsl.
+        assert (ahas N.eqb l ls = false) as Hn by (unfold ahas; now rewrite A).
+        pose proof (w_vcount_delta b s Hs0) as Hv.
+        rewrite (w_nohas s b (w_label_nohas l s Hn Hsl)) in Hv. lia.
+    - rewrite w_get_idx. destruct (aget N.eqb 0 ls) as [m|] eqn:A; [|apply (c_zero st C)].
+      destruct (w_label 0 m A) as [H _]. congruence.
+    - intros l i. rewrite w_get_idx. destruct (aget N.eqb l ls) as [m|] eqn:A; [|apply (c_wf st C)].
+      destruct (w_label l m A) as (Hl0 & idx' & E & W & _).
+      rewrite (w_lab_result l m idx' Hl0 E). destruct idx' as [|e r]; [discriminate|].
+      intro H. inversion H; subst. split; [exact W | discriminate].
+  Qed.
+
+  (* blocks and mapping entries never disappear *)
+  Lemma write_keys_grow k : aget N.eqb k (f_vox st') = None -> aget N.eqb k (f_vox st) = None.
+  Proof.
+    unfold st', f_write; simpl. rewrite (aget_put_blocks blocks _ k NDb).
+    now destruct (aget N.eqb k blocks).
+  Qed.
+End Write.
